@@ -372,18 +372,36 @@ def bitfields(t):
     return [(t, 0, None)]
 
 
+def _cidx(e):
+    """integer value of a constant index expression (6, 6 + 1, 2 * 3 - 1), else None"""
+    if e is None:
+        return None
+    if isinstance(e, ast.Constant) and isinstance(e.value, int) and not isinstance(e.value, bool):
+        return e.value
+    if isinstance(e, ast.BinOp) and isinstance(e.op, (ast.Add, ast.Sub, ast.Mult)):
+        a, b = _cidx(e.left), _cidx(e.right)
+        if a is None or b is None:
+            return None
+        return a + b if isinstance(e.op, ast.Add) else a - b if isinstance(e.op, ast.Sub) else a * b
+    if isinstance(e, ast.UnaryOp) and isinstance(e.op, ast.USub):
+        a = _cidx(e.operand)
+        return None if a is None else -a
+    return None
+
+
 def byte_ref(e, msg):
     """('byte', k) / ('unpack', fmt, a, b) for an expression reading the message, else None"""
-    if isinstance(e, ast.Subscript) and canon(e.value) == msg and isinstance(e.slice, ast.Constant):
-        return ("byte", e.slice.value)
+    if isinstance(e, ast.Subscript) and canon(e.value) == msg and not isinstance(e.slice, ast.Slice) \
+            and _cidx(e.slice) is not None:
+        return ("byte", _cidx(e.slice))
     if isinstance(e, ast.Subscript) and isinstance(e.value, ast.Call) and canon(e.value.func) == "struct.unpack" \
             and isinstance(e.slice, ast.Constant) and e.slice.value == 0:
         u = e.value
         fmt = u.args[0].value if isinstance(u.args[0], ast.Constant) else None
         sl = u.args[1]
         if isinstance(sl, ast.Subscript) and canon(sl.value) == msg and isinstance(sl.slice, ast.Slice):
-            lo = sl.slice.lower.value if isinstance(sl.slice.lower, ast.Constant) else (0 if sl.slice.lower is None else None)
-            hi = sl.slice.upper.value if isinstance(sl.slice.upper, ast.Constant) else None
+            lo = 0 if sl.slice.lower is None else _cidx(sl.slice.lower)
+            hi = _cidx(sl.slice.upper)
             return ("unpack", fmt, lo, hi)
     return None
 
@@ -396,11 +414,11 @@ def fold_field(repo, mod, expr, msg, off, size, fmt, neg=False):
     refs = set()
     for n in ast.walk(expr):
         if isinstance(n, ast.Subscript) and canon(n.value) == msg:
-            if isinstance(n.slice, ast.Constant) and isinstance(n.slice.value, int):
-                refs.add(n.slice.value)
+            if not isinstance(n.slice, ast.Slice) and _cidx(n.slice) is not None:
+                refs.add(_cidx(n.slice))
             elif isinstance(n.slice, ast.Slice):
-                lo = n.slice.lower.value if isinstance(n.slice.lower, ast.Constant) else None
-                hi = n.slice.upper.value if isinstance(n.slice.upper, ast.Constant) else None
+                lo = _cidx(n.slice.lower)
+                hi = _cidx(n.slice.upper)
                 if lo is None or hi is None:
                     return None, "slice bounds"
                 refs.update(range(lo, hi))
